@@ -49,8 +49,11 @@ def generate(seed, tier="quick"):
             vals.append(v)
     k = r.choice([1, 1, 1, 2, 3, 4])
     strikes = [round(x0 * r.uniform(0.8, 1.2), 6) for _ in range(k)]
-    payoff = {"kind": r.choice(["call", "put", "forward"]) if k == 1 else r.choice(["call", "put"]),
+    payoff = {"kind": r.choice(["call", "put", "forward", "uo_call", "di_put"]) if k == 1 else r.choice(["call", "put"]),
               "strikes": strikes}
+    if payoff["kind"] in ("uo_call", "di_put"):
+        # a path-dependent payoff: it observes the path through Product.underlying_value (knock event on x0 and the spot)
+        payoff["barrier"] = round(x0 + (1 if payoff["kind"] == "uo_call" else -1) * scale * r.choice([0.3, 1.0, 2.0]), 6)
     ncv = r.choice([0, 0, 1, 1, 2, 3])
     controls = []
     for j in range(ncv):
@@ -144,8 +147,12 @@ def shrink_candidates(sc):
 
 
 # ---- reference payoffs (independent of rpylib.product.payoff) -------------------------------------
-def _ref_payoff(kind, strikes, s):
+def _ref_payoff(kind, strikes, s, x0=None, barrier=None):
     k = np.asarray(strikes, dtype=float)
+    if kind == "uo_call":
+        return np.where(max(x0, s) > barrier, 0.0, np.maximum(s - k, 0.0))
+    if kind == "di_put":
+        return np.where(min(x0, s) < barrier, np.maximum(k - s, 0.0), 0.0)
     if kind == "logfwd":
         # log-contract: control on another underlying (LogSpot) than the payoff's (Spot): its value is recomputed from
         # the path by the engine instead of being implied from the payoff underlying
@@ -157,10 +164,15 @@ def _ref_payoff(kind, strikes, s):
     return s - k
 
 
-def _mk_payoff(kind, strikes):
+def _mk_payoff(kind, strikes, barrier=None):
     from rpylib.product.payoff import Vanilla, PayoffType, Forward
 
     st = strikes[0] if len(strikes) == 1 else list(strikes)
+    if kind in ("uo_call", "di_put"):
+        from rpylib.product.payoff import Barrier, BarrierType
+
+        return Barrier(strike=st, payoff_type=PayoffType.CALL if kind == "uo_call" else PayoffType.PUT,
+                       barrier_type=BarrierType.UP_AND_OUT if kind == "uo_call" else BarrierType.DOWN_AND_IN, barrier=barrier)
     if kind == "call":
         return Vanilla(strike=st if len(strikes) == 1 else np.array(st), payoff_type=PayoffType.CALL)
     if kind == "put":
@@ -185,10 +197,15 @@ def execute(wd, sc):
     # reference rows for ALL listed values (the engine may use any n of them)
     S_all = x0 + np.asarray(all_values, dtype=float)
 
-    def ref_rows(kind, strikes, notional):
-        return np.array([notional * _ref_payoff(kind, strikes, s) * df for s in S_all]).reshape(len(S_all), -1)
+    def ref_rows(kind, strikes, notional, barrier=None):
+        return np.array([notional * _ref_payoff(kind, strikes, s, x0, barrier) * df for s in S_all]).reshape(len(S_all), -1)
 
-    Y_all = ref_rows(sc["payoff"]["kind"], sc["payoff"]["strikes"], sc["notional"])
+    Y_all = ref_rows(sc["payoff"]["kind"], sc["payoff"]["strikes"], sc["notional"], sc["payoff"].get("barrier"))
+    if "barrier" in sc["payoff"]:
+        ev = [bool(np.ravel(_ref_payoff(sc["payoff"]["kind"], [-1e300 if sc["payoff"]["kind"] == "uo_call" else 1e300], s, x0, sc["payoff"]["barrier"]))[0] != 0.0)
+              for s in S_all[off:off + n]]
+        if any(ev) and not all(ev):
+            wd.probes["c07.path_dependent_payoff_event_mixed"] += 1
     X_all = [ref_rows(c["kind"], c["strikes"], c["notional"]) for c in sc["controls"]]
     # control prices: as given to the engine before the run
     cv_prices = []
@@ -202,7 +219,7 @@ def execute(wd, sc):
             p = m * 0.5 - 1.0
         cv_prices.append(float(p[0]) if k == 1 else np.array(p))
     process = stubs.ScriptedProcess(x0=x0, maturity=sc["maturity"], df_value=df)
-    product = Product(payoff_underlying=Spot(), payoff=_mk_payoff(sc["payoff"]["kind"], sc["payoff"]["strikes"]),
+    product = Product(payoff_underlying=Spot(), payoff=_mk_payoff(sc["payoff"]["kind"], sc["payoff"]["strikes"], sc["payoff"].get("barrier")),
                       maturity=sc["maturity"], notional=sc["notional"])
     cv = None
     if sc["controls"]:
